@@ -102,9 +102,10 @@ func c07Setup(rc *RunCtx) simrt.Config {
 	if c.kind.pipelined() {
 		c.maxCQ = pick(0, 0, 1, 2)
 	}
-	c.idle = []time.Duration{0, 0, 50 * time.Millisecond, 3 * time.Second}[r.Choose(4)]
+	c.idle = []time.Duration{0, 0, 50 * time.Millisecond, 3 * time.Second, 10 * time.Minute}[r.Choose(5)] // 10 min: far beyond every liveness timeout
 	if r.Choose(40) == 0 {
 		c.exhaust = true
+		cfg.MaxSteps = 400000 // > 100 tasks
 		c.kind = []TransportKind{TkPipelineStream, TkPipelineDgram}[r.Choose(2)]
 		c.mute, c.closeAt = false, 0
 	}
@@ -362,6 +363,9 @@ func c07Post(rc *RunCtx, res simrt.Result) {
 	w := c.w
 	if w == nil {
 		return
+	}
+	if res.End == simrt.EndStepCap {
+		return // the run was cut by the simulator's step budget: says nothing (counted as inconclusive)
 	}
 	for _, x := range w.Calls {
 		if !x.Started {
